@@ -24,6 +24,8 @@ CONSTANTS
   MAXOPS,            \* events per behaviour
   GENBAL,            \* initial balance of every account
   BFS,               \* base fees a block may have
+  BATCH,             \* "no": no multi-message txs; "first": a two-message Cosmos tx may open a behaviour; "block": may open any block
+  OPS,               \* restaking operations sent through gw / w: "dep", "dlg", "und", and "dlgx"/"undx" (amount above what is available)
   GEN                \* TRUE: random choice of every field (behaviour generation by -simulate)
 
 VARIABLES st, hist, ntx, nblk, last
@@ -54,7 +56,10 @@ AbsTx(s, k) ==
       tip == IF k.ty # "dyn" THEN price
              ELSE CASE k.tc = "zero" -> 0 [] k.tc = "one" -> 1 [] k.tc = "cap" -> price [] k.tc = "over" -> price + 1
       t0  == [s |-> k.s, to |-> k.to, ty |-> k.ty, gas |-> gas, price |-> price, tip |-> tip, value |-> 0,
-              nonce |-> 0, intr |-> INTR, mode |-> k.mode, word |-> 7, amt |-> 1]
+              nonce |-> 0, intr |-> INTR, mode |-> k.mode, word |-> 7,
+              op |-> IF k.op \in {"dlg", "dlgx"} THEN "dlg" ELSE IF k.op \in {"und", "undx"} THEN "und" ELSE "dep",
+              amt |-> CASE k.op = "dep" -> 2 [] k.op = "dlg" -> 1 [] k.op = "und" -> 1
+                        [] k.op = "dlgx" -> s.wd[k.s] + 1 [] k.op = "undx" -> s.dl[k.s] + 1]
       fee == Fee(t0, s.bf)
       value == CASE k.vc = "zero" -> 0 [] k.vc = "one" -> 1 [] k.vc = "over" -> bal + 1
                  [] k.vc = "split" -> (IF bal >= fee THEN bal - fee + 1 ELSE bal)
@@ -78,7 +83,8 @@ WithW(t, x) == [x EXCEPT !.wflag = IF t.mode = "irev" THEN 1 ELSE 2, !.inner = (
 Init ==
   /\ st = [nonce |-> [a \in ACCTS |-> 0], bal |-> [p \in Parties |-> IF p \in ACCTS THEN GENBAL ELSE 0],
            fc |-> 0, sink |-> 0, bg |-> 0, bf |-> CHOOSE b \in BFS : \A c \in BFS : b <= c,
-           stor |-> [c \in {"c", "w", "w1"} |-> 0], dep |-> 0]
+           stor |-> [c \in {"c", "w", "w1"} |-> 0], dep |-> 0,
+           wd |-> [a \in ACCTS |-> 0], dl |-> [a \in ACCTS |-> 0]]
   /\ hist = <<>>
   /\ ntx = 0
   /\ nblk = 0
@@ -110,6 +116,7 @@ TxStep ==
      LET e == IF GEN /\ MAXEXC = 1 THEN ExcPick(ee) ELSE ee IN
      Choose(SENDERS, LAMBDA s :
      Choose(TARGETS, LAMBDA to :
+     Choose(IF to \in {"gw", "w"} THEN OPS ELSE {"dep"}, LAMBDA op :
      Choose(ModesOf(to), LAMBDA mode :
      Choose(IF e = "tc" /\ MAXEXC < 2 THEN TYPES \cap {"dyn"} ELSE TYPES, LAMBDA ty :
      Choose(IF ty = "dyn" THEN Dom(e, "tc", TIPS_N, TIPS_X) ELSE {"cap"}, LAMBDA tc :
@@ -117,20 +124,77 @@ TxStep ==
      Choose(Dom(e, "gl", GLS_N, GLS_X \ (IF BLOCKGAS = 0 THEN {"huge"} ELSE {})), LAMBDA gl :
      Choose(Dom(e, "vc", VCS_N, VCS_X), LAMBDA vc :
      Choose(Dom(e, "nc", {"ok"}, NCS_X), LAMBDA nc :
-       DoTx([s |-> s, to |-> to, ty |-> ty, pc |-> pc, tc |-> tc, gl |-> gl, vc |-> vc, nc |-> nc, mode |-> mode])))))))))))
+       DoTx([s |-> s, to |-> to, ty |-> ty, pc |-> pc, tc |-> tc, gl |-> gl, vc |-> vc, nc |-> nc, mode |-> mode, op |-> op]))))))))))))
+
+(***************************************************************************)
+(* one Cosmos tx with two MsgEthereumTx.  The second message's classes are  *)
+(* resolved against the state the first one's ante effects leave (its       *)
+(* nonce class "ok" is the NEXT sequence when both have the same sender).   *)
+(* Targets exclude the wrapper (its two flags are per-tx observations);     *)
+(* value class "split" is left to single txs (F-C19-1 is matched there).    *)
+(***************************************************************************)
+AbsOutExec(s, t) ==
+  \* like AbsOut, but s already has every fee of the Cosmos tx deducted
+  LET need == IF t.to \in ACCTS THEN t.intr ELSE t.intr + CALLCOST IN
+  IF NIsPos(t.value) /\ NLt(s.bal[t.s], t.value) THEN [gasEvm |-> t.intr, vmfail |-> TRUE, gasRej |-> 0, wflag |-> 0, inner |-> FALSE]
+  ELSE IF t.mode = "oog" \/ t.gas < need THEN [gasEvm |-> t.gas, vmfail |-> TRUE, gasRej |-> 0, wflag |-> 0, inner |-> FALSE]
+  ELSE IF t.mode = "rev" THEN [gasEvm |-> need - 3, vmfail |-> TRUE, gasRej |-> 0, wflag |-> 0, inner |-> FALSE]
+  ELSE [gasEvm |-> need, vmfail |-> FALSE, gasRej |-> 0, wflag |-> 0, inner |-> FALSE]
+
+DoBatch(k1, k2) ==
+  LET t1 == AbsTx(st, k1)
+      a1 == Ante(st, t1)
+      t2 == AbsTx(IF a1.code = 0 THEN a1.st ELSE st, k2)
+      ts == <<t1, t2>>
+      ab == AnteBatch(st, ts)
+      x1 == AbsOutExec(ab.st, t1)
+      \* the second message runs on the state the first one left
+      s12 == IF x1.vmfail \/ t1.gas < t1.intr THEN ab.st ELSE Effects(ab.st, t1, x1)
+      x2 == AbsOutExec(s12, t2)
+      r  == DeliverBatch(st, ts, <<x1, x2>>)
+  IN /\ st' = r.st
+     /\ hist' = Append(hist, [ev |-> "Batch", a |-> [ks |-> <<k1, k2>>]])
+     /\ ntx' = ntx + 2
+     /\ last' = [ev |-> "Batch", ts |-> ts, o |-> [code |-> r.code, gu |-> r.gu, gus |-> r.gus, vmfails |-> r.vmfails]]
+     /\ UNCHANGED nblk
+
+BTargets == TARGETS \ {"w"}
+\* weighted choice for generation (repeated entries), plain \E over the entries otherwise
+ChooseW(q, P(_)) == IF GEN THEN P(q[RandomElement(1..Len(q))]) ELSE \E x \in ToSet(q) : P(x)
+\* generation favours what the batch path is about: the same sender again, and contract creations
+BPick(k0, P(_)) ==
+  ChooseW(IF GEN /\ k0.s \in SENDERS THEN <<k0.s, k0.s>> \o SetToSeq(SENDERS) ELSE SetToSeq(SENDERS), LAMBDA s :
+  ChooseW(IF GEN /\ "new" \in BTargets THEN <<"new", "new">> \o SetToSeq(BTargets) ELSE SetToSeq(BTargets), LAMBDA to :
+  Choose(ModesOf(to), LAMBDA mode :
+  Choose(IF to = "gw" THEN OPS ELSE {"dep"}, LAMBDA op :
+  Choose(IF GEN THEN TYPES ELSE {"leg"}, LAMBDA ty :
+  Choose(IF ty = "dyn" THEN TIPS_N ELSE {"cap"}, LAMBDA tc :
+  ChooseW(IF GEN THEN <<"at", "at", "above", "above", "above", "above", "below">> ELSE <<"at">>, LAMBDA pc :
+  ChooseW(IF GEN THEN <<"intr", "mid", "big", "big", "big", "large", "large", "lo">> ELSE <<"intr", "big">>, LAMBDA gl :
+  ChooseW(IF GEN THEN <<"zero", "zero", "zero", "one", "one", "one", "over">> ELSE <<"one">>, LAMBDA vc :
+  ChooseW(IF GEN THEN <<"ok", "ok", "ok", "ok", "ok", "ok", "ahead">> ELSE <<"ok", "ahead">>, LAMBDA nc :
+    P([s |-> s, to |-> to, ty |-> ty, pc |-> pc, tc |-> tc, gl |-> gl, vc |-> vc, nc |-> nc, mode |-> mode, op |-> op])))))))))))
+
+BatchStep ==
+  /\ BATCH # "no"
+  /\ ntx = 0
+  /\ BATCH = "first" => hist = <<>>
+  /\ MAXTX >= 2
+  /\ Len(hist) < MAXOPS
+  /\ BPick([s |-> "none"], LAMBDA k1 : BPick(k1, LAMBDA k2 : DoBatch(k1, k2)))
 
 BlockStep ==
   /\ nblk < MAXBLOCKS
   /\ Len(hist) < MAXOPS
   /\ ntx > 0
   /\ Choose(BFS, LAMBDA b :
-       /\ st' = NewBlock(st, [bf |-> b, fc |-> st.fc])
+       /\ st' = NewBlock(st, [bf |-> b, fc |-> st.fc, wd |-> st.wd])
        /\ hist' = Append(hist, [ev |-> "NewBlock", a |-> [x |-> 0]])
        /\ ntx' = 0
        /\ last' = [ev |-> "NewBlock"]
        /\ nblk' = nblk + 1)
 
-Next == TxStep \/ BlockStep
+Next == TxStep \/ BatchStep \/ BlockStep
 Spec == Init /\ [][Next]_vars
 View == <<st, ntx, nblk>>
 
@@ -139,7 +203,14 @@ View == <<st, ntx, nblk>>
 (* of the property.  Action properties are evaluated by TLC on every        *)
 (* generated transition, so they do not depend on what the VIEW hides.      *)
 (***************************************************************************)
-TagsOfStep == IF last'.ev = "Tx" THEN C19Tags(st, st', last'.t, last'.o) ELSE {}
+TagsOfStep == IF last'.ev = "Tx" THEN C19Tags(st, st', last'.t, last'.o)
+              ELSE IF last'.ev = "Batch" THEN C19BatchTags(st, st', last'.ts, last'.o) ELSE {}
+\* a one-message Cosmos tx through the batch operators is the single-tx operator
+BatchIsTx == last'.ev # "Tx" \/
+  LET x == [gasEvm |-> last'.o.gu, vmfail |-> last'.o.vmfail, gasRej |-> 0, wflag |-> st'.stor["w"], inner |-> NEq(st'.stor["w1"], 2)]
+      b == DeliverBatch(st, <<last'.t>>, <<x>>)
+  IN b.st = st' /\ b.code = last'.o.code
+PropBatchIsTx  == [][BatchIsTx]_vars
 StepC19        == TagsOfStep = {}
 StepAdmission  == TagsOfStep \cap {"C19_InadmissibleIncluded"} = {}
 StepFrame      == TagsOfStep \cap {"C19_RevertedFrameKeptState", "C19_FailedChangedState"} = {}
